@@ -96,6 +96,15 @@ Fixpoint bytes_ltb (a b : list N) : bool :=   (* lexicographic < on byte strings
 Definition poolkey_new (x y : denom) : denom * denom :=
   if bytes_ltb (denom_bytes y) (denom_bytes x) then (y, x) else (x, y).
 
+(* pool_key_from_data (melmint.rs): only the canonical spelling of a pool name is a pool request *)
+Definition is_newcustom (d : denom) : bool := match d with NewCustom => true | _ => false end.
+Definition canonical_key (k : denom * denom) (data : list N) : bool :=
+  negb (denom_eqb (fst k) (snd k)) && negb (is_newcustom (fst k)) && negb (is_newcustom (snd k))
+  && (let k' := poolkey_new (fst k) (snd k) in denom_eqb (fst k') (fst k) && denom_eqb (snd k') (snd k))
+  && (fix eqb (a b : list N) : bool :=
+        match a, b with [], [] => true | x :: a', y :: b' => (x =? y) && eqb a' b' | _, _ => false end)
+       (poolkey_bytes k) data.
+
 (* derived Ord on Denom (variant order, then hash) and on PoolKey (left, right) *)
 Definition denom_rank (d : denom) : N * N :=
   match d with Mel => (0, 0) | Sym => (1, 0) | Erg => (2, 0) | NewCustom => (3, 0) | Custom h => (4, h) end.
@@ -111,18 +120,24 @@ Fixpoint insert_sorted (k : denom * denom) (l : list (denom * denom)) : list (de
   | [] => [k]
   | x :: r => if poolkey_eqb k x then l else if poolkey_ltb k x then k :: l else x :: insert_sorted k r
   end.
+Definition tx_pool (t : tx) : option (denom * denom) :=
+  match t_poolkey t with
+  | Some k => if canonical_key k (t_data t) then Some k else None
+  | None => None
+  end.
+
 (* extract_pool_keys_sorted: sort + dedup *)
 Definition pool_keys_sorted (txs : list tx) : list (denom * denom) :=
-  fold_right (fun t acc => match t_poolkey t with Some k => insert_sorted k acc | None => acc end) [] txs.
+  fold_right (fun t acc => match tx_pool t with Some k => insert_sorted k acc | None => acc end) [] txs.
 Definition txs_for_pool (txs : list tx) (k : denom * denom) : list tx :=
-  List.filter (fun t => match t_poolkey t with Some k' => poolkey_eqb k k' | None => false end) txs.
+  List.filter (fun t => match tx_pool t with Some k' => poolkey_eqb k k' | None => false end) txs.
 
 (* ---------------------------------------------------------------- PoolState arithmetic (melstructs::melswap) *)
 Definition to_u128_sat (x : N) : N := if x <? U128 then x else MAX128.
 
-(* floor(x * a / b) as multiply_frac(x, Ratio::new(a, b)) *)
-Definition multiply_frac (x a b : N) : res N :=
-  if b =? 0 then Panic P_RATIO_ZERO else Ok (to_u128_sat (x * a / b)).
+(* multiply_ratio: floor(x * a / b), and 0 for an empty total *)
+Definition multiply_ratio (x a b : N) : N :=
+  if b =? 0 then 0 else to_u128_sat (x * a / b).
 
 Definition swap_many (p : pool) (lefts rights : N) : res (pool * N * N) :=
   let L := sat_add128 (p_lefts p) lefts in
@@ -244,6 +259,13 @@ Fixpoint total_outputs_go (outs : list coindata) (acc : list (denom * N)) : res 
 Definition total_outputs (t : tx) : res (list (denom * N)) :=
   acc <- total_outputs_go (t_outputs t) [] ;; assoc_add Mel (t_fee t) acc.
 
+(* totals_fit_u128 (applytx.rs): the unchecked sums of total_outputs and of Transaction::weight must not overflow *)
+Definition totals_fit (t : tx) : bool :=
+  match total_outputs t, sum128 (map cov_weight (t_covenants t)) with
+  | Ok _, Ok _ => true
+  | _, _ => false
+  end.
+
 (* ---------------------------------------------------------------- covenant environment (melvm value.rs / executor.rs) *)
 Definition vhash (h : N) : value := VBytes (be_bytes 32 h).
 Definition coindata_value (c : coindata) : value :=
@@ -306,7 +328,7 @@ Fixpoint dup_free (seen : gmap N unit) (ks : list N) : bool :=
 Definition all_inputs (txs : list tx) : list N := flat_map (fun t => map input_key (t_inputs t)) txs.
 
 Definition load_relevant_coins (txs : list tx) : res (gmap N cdh) :=
-  if negb (forallb well_formed txs) then Reject EMalformed else
+  if negb (forallb (fun t => well_formed t && totals_fit t) txs) then Reject EMalformed else
   let accum : gmap N cdh :=
     fold_left (fun m t => fold_left (fun m kv => <[fst kv := snd kv]> m) (output_coins (s_height s) t) m) txs ∅ in
   let fix go (ks : list N) (m : gmap N cdh) : res (gmap N cdh) :=
@@ -412,10 +434,11 @@ Definition validate_doscmint (relevant : gmap N cdh) (t : tx) : res N :=
         | DDNone => Reject EInvalidMelPoW
         | DDBadProof _ => Reject EMalformed
         | DDProof difficulty pid =>
-          let verdict := so_melpow SO pid (so_header_hash SO seed) (input_key i0) difficulty in
-          if verdict =? 3 then Panic P_MELPOW else
-          if verdict =? 0 then Reject EInvalidMelPoW else
-          let tip910 := verdict =? 2 in
+          if (difficulty =? 0) || (64 <? difficulty) then Reject EInvalidMelPoW else
+          match so_melpow SO pid (so_header_hash SO seed) (input_key i0) difficulty with
+          | VInvalid => Reject EInvalidMelPoW
+          | v =>
+          let tip910 := match v with VTip910 => true | _ => false end in
           if 128 <=? difficulty then Panic P_OVERFLOW else
           let w := (if tip910 then 100 else 1) * 2 ^ difficulty in
           if U128 <=? w then Panic P_OVERFLOW else
@@ -429,6 +452,7 @@ Definition validate_doscmint (relevant : gmap N cdh) (t : tx) : res N :=
             reward_nom <- dosc_to_erg (s_height s) reward_real ;;
             outs <- total_outputs t ;;
             if reward_nom <? default 0 (assoc_get Erg outs) then Reject EInvalidMelPoW else Ok speed
+          end
           end
         end
       end
@@ -455,26 +479,40 @@ Fixpoint remove_coins (tip906 : bool) (ks : list N) (cn : gmap N cdh * gmap N N)
   | k :: r => cn' <- remove_coin tip906 k cn ;; remove_coins tip906 r cn'
   end.
 
-(* create_next_state, one transaction: outputs inserted, then inputs removed, then the fee split *)
-Definition apply_one (relevant : gmap N cdh) (tip906 : bool) (t : tx) (n : wstate) : res wstate :=
-  cn0 <- (if txkind_eqb (t_kind t) KFaucet then handle_faucet tip906 t (s_coins n, s_counts n)
-          else Ok (s_coins n, s_counts n)) ;;
-  let cn1 := fold_left (fun cn '(i, _) =>
-               let k := coin_key (t_hash t) (i mod 256) in
-               match relevant !! k with Some c => insert_coin tip906 k c cn | None => cn end)
-             (enumerate 0 (t_outputs t)) cn0 in
-  cn2 <- remove_coins tip906 (map input_key (t_inputs t)) cn1 ;;
+(* create_next_state.  First pass: faucet dedup marker and the outputs of every transaction;
+   second pass: the inputs of every transaction are removed, then its fee is split. *)
+Definition insert_outputs (relevant : gmap N cdh) (tip906 : bool) (t : tx) (cn : gmap N cdh * gmap N N)
+  : res (gmap N cdh * gmap N N) :=
+  cn0 <- (if txkind_eqb (t_kind t) KFaucet then handle_faucet tip906 t cn else Ok cn) ;;
+  Ok (fold_left (fun cn '(i, _) =>
+        let k := coin_key (t_hash t) (i mod 256) in
+        match relevant !! k with Some c => insert_coin tip906 k c cn | None => cn end)
+      (enumerate 0 (t_outputs t)) cn0).
+
+Fixpoint insert_all (relevant : gmap N cdh) (tip906 : bool) (txs : list tx) (cn : gmap N cdh * gmap N N)
+  : res (gmap N cdh * gmap N N) :=
+  match txs with
+  | [] => Ok cn
+  | t :: r => cn' <- insert_outputs relevant tip906 t cn ;; insert_all relevant tip906 r cn'
+  end.
+
+Definition spend_and_pay (tip906 : bool) (t : tx) (n : wstate) : res wstate :=
+  cn2 <- remove_coins tip906 (map input_key (t_inputs t)) (s_coins n, s_counts n) ;;
   mf <- min_fee (s_fee_mult n) t ;;
   if t_fee t <? mf then Reject EInsufficientFees else
   let n1 := set_coins n (fst cn2) (snd cn2) in
   let n2 := set_fees n1 (sat_add128 (s_fee_pool n) mf) (sat_add128 (s_tips n) (t_fee t - mf)) in
   Ok (set_txs n2 (<[t_hash t := t]> (s_txs n))).
 
-Fixpoint create_next_state (relevant : gmap N cdh) (tip906 : bool) (txs : list tx) (n : wstate) : res wstate :=
+Fixpoint spend_all (tip906 : bool) (txs : list tx) (n : wstate) : res wstate :=
   match txs with
   | [] => Ok n
-  | t :: r => n' <- apply_one relevant tip906 t n ;; create_next_state relevant tip906 r n'
+  | t :: r => n' <- spend_and_pay tip906 t n ;; spend_all tip906 r n'
   end.
+
+Definition create_next_state (relevant : gmap N cdh) (tip906 : bool) (txs : list tx) (n : wstate) : res wstate :=
+  cn <- insert_all relevant tip906 txs (s_coins n, s_counts n) ;;
+  spend_all tip906 txs (set_coins n (fst cn) (snd cn)).
 
 (* the rayon try_for_each / try_fold: the batch fails iff some element fails; which error is reported
    depends on scheduling, so the model returns the first in slice order and [validity_errors] lists all *)
@@ -548,46 +586,54 @@ Definition create_builtins (s : wstate) : wstate :=
   let s := add (poolkey_new Mel Erg) s in
   if tip_902 s then add (poolkey_new Erg Sym) s else s.
 
-(* get_swap_transactions: NOTE no test on the transaction kind (finding F3) *)
+(* get_swap_transactions *)
 Definition is_swap_request (s : wstate) (t : tx) : bool :=
+  txkind_eqb (t_kind t) KSwap &&
   match t_outputs t with
   | [] => false
   | o0 :: _ =>
     has_coin s (coin_key (t_hash t) 0) &&
-    match t_poolkey t with
+    match tx_pool t with
     | None => false
     | Some k =>
       match get_pool s k with
       | None => false
-      | Some _ => denom_eqb (cd_denom o0) (fst k) || denom_eqb (cd_denom o0) (snd k)
+      | Some p => (0 <? p_lefts p) && (0 <? p_rights p)
+                  && (denom_eqb (cd_denom o0) (fst k) || denom_eqb (cd_denom o0) (snd k))
       end
     end
   end.
 
 Definition sat_sum (l : list N) : N := fold_left sat_add128 l 0.
 
+(* the per-request rewrite of process_swaps_for_single_pool *)
+Fixpoint swaps_go (k : denom * denom) (lw rw tl tr : N) (l : list tx) (s : wstate) : wstate :=
+  match l with
+  | [] => s
+  | t :: rest =>
+    let o := out0 t in
+    let nv := if denom_eqb (cd_denom o) (fst k)
+              then (snd k, N.min (multiply_ratio rw (cd_value o) tl) MAX_COINVAL)
+              else (fst k, N.min (multiply_ratio lw (cd_value o) tr) MAX_COINVAL) in
+    swaps_go k lw rw tl tr rest
+      (put_coin s (coin_key (t_hash t) 0)
+         {| c_data := {| cd_covhash := cd_covhash o; cd_value := snd nv; cd_denom := fst nv;
+                         cd_extra := cd_extra o |};
+            c_height := s_height s |})
+  end.
+
+Definition swap_total (d : denom) (swaps : list tx) : N :=
+  sat_sum (map (fun t => if denom_eqb (cd_denom (out0 t)) d then cd_value (out0 t) else 0) swaps).
+
 Definition swaps_single_pool (k : denom * denom) (s : wstate) (swaps : list tx) : res wstate :=
   match get_pool s k with
   | None => Panic P_UNWRAP
   | Some p =>
-    let tl := sat_sum (map (fun t => if denom_eqb (cd_denom (out0 t)) (fst k) then cd_value (out0 t) else 0) swaps) in
-    let tr := sat_sum (map (fun t => if denom_eqb (cd_denom (out0 t)) (snd k) then cd_value (out0 t) else 0) swaps) in
+    let tl := swap_total (fst k) swaps in
+    let tr := swap_total (snd k) swaps in
     r <- swap_many p tl tr ;;
     let '(p', lw, rw) := r in
-    s' <- (fix go (l : list tx) (s : wstate) : res wstate :=
-             match l with
-             | [] => Ok s
-             | t :: rest =>
-               let o := out0 t in
-               nv <- (if denom_eqb (cd_denom o) (fst k)
-                      then (v <- multiply_frac rw (cd_value o) tl ;; Ok (snd k, N.min v MAX_COINVAL))
-                      else (v <- multiply_frac lw (cd_value o) tr ;; Ok (fst k, N.min v MAX_COINVAL))) ;;
-               go rest (put_coin s (coin_key (t_hash t) 0)
-                          {| c_data := {| cd_covhash := cd_covhash o; cd_value := snd nv; cd_denom := fst nv;
-                                          cd_extra := cd_extra o |};
-                             c_height := s_height s |})
-             end) swaps s ;;
-    Ok (put_pool s' k p')
+    Ok (put_pool (swaps_go k lw rw tl tr swaps s) k p')
   end.
 
 Fixpoint for_pools (f : denom * denom -> wstate -> list tx -> res wstate)
@@ -604,13 +650,35 @@ Definition process_swaps (s : wstate) : res wstate :=
 Definition is_deposit_request (s : wstate) (t : tx) : bool :=
   txkind_eqb (t_kind t) KLiqDeposit && (2 <=? N.of_nat (length (t_outputs t)))
   && has_coin s (coin_key (t_hash t) 0) && has_coin s (coin_key (t_hash t) 1)
-  && match t_poolkey t with
+  && match tx_pool t with
      | None => false
-     | Some k => denom_eqb (cd_denom (out0 t)) (fst k) && denom_eqb (cd_denom (out1 t)) (snd k)
+     | Some k =>
+       match get_pool s k with
+       | Some p => (p_liqs p =? 0) || ((0 <? p_lefts p) && (0 <? p_rights p))
+       | None => true
+       end
+       && denom_eqb (cd_denom (out0 t)) (fst k) && denom_eqb (cd_denom (out1 t)) (snd k)
      end.
 
 Definition del_coin (s : wstate) (k : N) : res wstate :=
   cn <- remove_coin (tip_906 s) k (s_coins s, s_counts s) ;; Ok (set_coins s (fst cn) (snd cn)).
+
+Fixpoint deposits_go (k : denom * denom) (total_liqs total_mtsqrt : N) (l : list tx) (liqs_left : N) (s : wstate)
+  : res wstate :=
+  match l with
+  | [] => Ok s
+  | t :: rest =>
+    let my := sat_mul128 (N.sqrt (cd_value (out0 t))) (N.sqrt (cd_value (out1 t))) in
+    let v := N.min (multiply_ratio total_liqs my total_mtsqrt) liqs_left in
+    let s1 := put_coin s (coin_key (t_hash t) 0)
+                {| c_data := {| cd_covhash := cd_covhash (out0 t); cd_value := v;
+                                cd_denom := Custom (so_liq_denom SO (poolkey_code k));
+                                cd_extra := cd_extra (out0 t) |};
+                   c_height := s_height s |} in
+    s2 <- (if legacy_net s && (s_height s <? 978392) then Ok s1   (* removes the coin of the *rewritten* tx: nothing *)
+           else del_coin s1 (coin_key (t_hash t) 1)) ;;
+    deposits_go k total_liqs total_mtsqrt rest (liqs_left - v) s2
+  end.
 
 Definition deposits_single_pool (k : denom * denom) (s : wstate) (deps : list tx) : res wstate :=
   let tl := sat_sum (map (fun t => cd_value (out0 t)) deps) in
@@ -618,22 +686,7 @@ Definition deposits_single_pool (k : denom * denom) (s : wstate) (deps : list tx
   let total_mtsqrt := sat_mul128 (N.sqrt tl) (N.sqrt tr) in
   pl <- pool_deposit (match get_pool s k with Some p => p | None => new_empty_pool end) tl tr ;;
   let '(p', total_liqs) := pl in
-  let s := put_pool s k p' in
-  (fix go (l : list tx) (s : wstate) : res wstate :=
-     match l with
-     | [] => Ok s
-     | t :: rest =>
-       let my := sat_mul128 (N.sqrt (cd_value (out0 t))) (N.sqrt (cd_value (out1 t))) in
-       v <- multiply_frac total_liqs my total_mtsqrt ;;
-       let s1 := put_coin s (coin_key (t_hash t) 0)
-                   {| c_data := {| cd_covhash := cd_covhash (out0 t); cd_value := v;
-                                   cd_denom := Custom (so_liq_denom SO (poolkey_code k));
-                                   cd_extra := cd_extra (out0 t) |};
-                      c_height := s_height s |} in
-       s2 <- (if legacy_net s && (s_height s <? 978392) then Ok s1   (* removes the coin of the *rewritten* tx: nothing *)
-              else del_coin s1 (coin_key (t_hash t) 1)) ;;
-       go rest s2
-     end) deps s.
+  deposits_go k total_liqs total_mtsqrt deps total_liqs (put_pool s k p').
 
 Definition process_deposits (s : wstate) : res wstate :=
   let reqs := List.filter (is_deposit_request s) (sorted_txs s) in
@@ -642,7 +695,7 @@ Definition process_deposits (s : wstate) : res wstate :=
 Definition is_withdraw_request (s : wstate) (t : tx) : bool :=
   txkind_eqb (t_kind t) KLiqWithdraw && (N.of_nat (length (t_outputs t)) =? 1)
   && has_coin s (coin_key (t_hash t) 0)
-  && match t_poolkey t with
+  && match tx_pool t with
      | None => false
      | Some k => match get_pool s k with
                  | None => false
@@ -650,25 +703,28 @@ Definition is_withdraw_request (s : wstate) (t : tx) : bool :=
                  end
      end.
 
+Fixpoint withdrawals_go (k : denom * denom) (tleft tright total : N) (l : list tx) (s : wstate) : wstate :=
+  match l with
+  | [] => s
+  | t :: rest =>
+    let o := out0 t in
+    let a := multiply_ratio tleft (cd_value o) total in
+    let b := multiply_ratio tright (cd_value o) total in
+    let mk d v := {| c_data := {| cd_covhash := cd_covhash o; cd_value := v; cd_denom := d; cd_extra := cd_extra o |};
+                     c_height := s_height s |} in
+    withdrawals_go k tleft tright total rest
+      (put_coin (put_coin s (coin_key (t_hash t) 0) (mk (fst k) a)) (coin_key (t_hash t) 1) (mk (snd k) b))
+  end.
+
 Definition withdrawals_single_pool (k : denom * denom) (s : wstate) (ws : list tx) : res wstate :=
   let total := sat_sum (map (fun t => cd_value (out0 t)) ws) in
   match get_pool s k with
   | None => Panic P_UNWRAP
   | Some p =>
+    if (p_liqs p =? 0) || (p_liqs p <? total) then Ok s else
     r <- pool_withdraw p total ;;
     let '(p', tleft, tright) := r in
-    let s := put_pool s k p' in
-    (fix go (l : list tx) (s : wstate) : res wstate :=
-       match l with
-       | [] => Ok s
-       | t :: rest =>
-         let o := out0 t in
-         a <- multiply_frac tleft (cd_value o) total ;;
-         b <- multiply_frac tright (cd_value o) total ;;
-         let mk d v := {| c_data := {| cd_covhash := cd_covhash o; cd_value := v; cd_denom := d; cd_extra := cd_extra o |};
-                          c_height := s_height s |} in
-         go rest (put_coin (put_coin s (coin_key (t_hash t) 0) (mk (fst k) a)) (coin_key (t_hash t) 1) (mk (snd k) b))
-       end) ws s
+    Ok (withdrawals_go k tleft tright total ws (put_pool s k p'))
   end.
 
 Definition process_withdrawals (s : wstate) : res wstate :=
@@ -748,20 +804,11 @@ Definition apply_tip_909 (s : wstate) : res wstate :=
     end
   end.
 
-Definition I64MAX : Z := 9223372036854775807.
-(* `x as i64` on a u128: the low 64 bits reinterpreted as two's complement *)
-Definition as_i64 (x : N) : Z :=
-  let lo := Z.of_N (x mod U64) in
-  if (lo <=? I64MAX)%Z then lo else (lo - Z.of_N U64)%Z.
-
-Definition move_fee_multiplier (after901 : bool) (mult : N) (delta : Z) : res N :=
-  let mm := as_i64 (mult / 128) in
-  let mm := if after901 then Z.max mm 2 else mm in
-  let prod := (mm * delta)%Z in
-  if ((prod <? - I64MAX - 1) || (I64MAX <? prod))%Z then Panic P_OVERFLOW else
-  let scaled := Z.quot prod 128 in
-  if (0 <=? scaled)%Z then add128 P_OVERFLOW mult (Z.to_N scaled)
-  else sub128 P_UNDERFLOW mult (Z.to_N (- scaled)).
+(* move_action_fee_multiplier: magnitudes in u128, saturating *)
+Definition move_fee_multiplier (after901 : bool) (mult : N) (delta : Z) : N :=
+  let mm := if after901 then N.max (mult / 128) 2 else mult / 128 in
+  let mag := mm * Z.abs_N delta / 128 in
+  if (0 <=? delta)%Z then sat_add128 mult mag else mult - mag.
 
 Definition collect_proposer_fee (s : wstate) (a : action) : res wstate :=
   let base := s_fee_pool s / 65536 in
@@ -779,8 +826,7 @@ Definition seal (s : wstate) (a : option action) : res wstate :=
   match a with
   | None => Ok s
   | Some a =>
-    m <- move_fee_multiplier (tip_901 s) (s_fee_mult s) (a_delta a) ;;
-    collect_proposer_fee (set_mult s m) a
+    collect_proposer_fee (set_mult s (move_fee_multiplier (tip_901 s) (s_fee_mult s) (a_delta a))) a
   end.
 
 (* SealedState::header *)
@@ -856,6 +902,6 @@ Definition confirm (s : wstate) (hdr_hash : N) (proof : list (N * list N)) : boo
   let epoch := s_height s / STAKE_EPOCH in
   let total := total_votes (s_stakes s) epoch in
   let present := fold_left (fun acc '(k, _) => acc + votes (s_stakes s) epoch k) proof 0 in
-  present / 2 * 3 <? total.
+  total / 3 * 2 + total mod 3 * 2 / 3 <? present.
 
 End Melmint.
